@@ -54,6 +54,8 @@ class Model:
             for s, x in zip(ids, op[2]):
                 if not self.t[s][0]:
                     self.t[s][col] = float(x)
+        elif k == "bad_set_value":
+            pass            # a rejected call sets nothing
         elif k == "neg":
             for s, (kn, lo, up) in list(self.t.items()):
                 self.t[s] = [kn, UNSPEC if up is UNSPEC else -up + 0.0, UNSPEC if lo is UNSPEC else -lo + 0.0]
@@ -69,6 +71,12 @@ def real_apply(g, op):
         return g
     if k == "set_known_values_alias":      # bulk reset to the object's own current values, passed as the live view get_values() returns
         g.set_known_values(g.get_values())
+        return g
+    if k == "bad_set_value":               # a call the library rejects; the caller catches the exception and keeps using the object
+        try:
+            g.set_value("not a number", coal(op[1]))
+        except (ValueError, TypeError):
+            pass
         return g
     if k in ("set_value", "reveal_value"):
         getattr(g, k)(op[2], coal(op[1]))
@@ -249,6 +257,9 @@ def alphabet(n: int, values, bounds, m: Model, with_neg: bool, extended: bool | 
         ops.append(("set_values_alias_rev",))
         if all(m.t[s][0] for s in range(N)):
             ops.append(("set_known_values_alias",))
+    if extended:
+        ops.append(("bad_set_value", N - 1))
+        ops.append(("bad_set_value", 1))
     if with_neg:
         ops.append(("neg",))
     # de-duplicate (patterns coincide for singletons)
